@@ -1,13 +1,21 @@
-"""What is claimed in MANIFEST.json (tools_manifest.py turns this into the manifest)."""
+"""What is claimed in MANIFEST.json: one JSON fragment per property in checks/registry.d/
+   {"property": "Cxx", "claimed": true, "technique": ..., "text": ..., "note": ..., "design_ref": ...}
+or {"property": "Cxx", "claimed": false, "reason": ...}
+(tools_manifest.py turns this into MANIFEST.json)."""
+import json, os, glob
 HOOK_COMMITS = []
-
-CLAIMED = {
- 'C17': {
-  'technique': 'Lean 4 proof over definitions translated from clang typed AST of every SafeInt instantiation; differential run vs compiled templates',
-  'text': 'Full proof: for each of the 130 instantiations (add/sub/mul/SafeAbs for 10 integer types, 90 converting constructors) a Lean theorem over all representable operands (unbounded Int with range hypotheses, no enumeration) states result = exact value if representable else overflow error, never UB/wrap. The definitions are regenerated from include/mp/safeint.h on every run, so a code change re-checks the theorems against the new code.',
-  'note': 'Trusted: Lean kernel (propext, Classical.choice, Quot.sound only), translators/tr_cint.py + clang-14 typed AST, MpVerif/Basic/CSem.lean (C++ integer semantics, LP64), numeric_limits min/max as builtin constants. Translator is cross-checked on every run against the compiled templates (8-bit exhaustive, wider boundary+random) and an exact __int128 oracle under UBSan.',
- },
-}
-
-_TODO = 'check not built yet in this session (planned, see DESIGN.md §10); not claimed'
-NOT_APPLICABLE = {p: _TODO for p in ['C01','C02','C03','C04','C05','C06','C07','C08','C09','C10','C11','C12','C13','C14','C15','C16','C18','C19','C20']}
+_hc = os.path.join(os.path.dirname(os.path.abspath(__file__)), 'registry.d', 'hook_commits.json')
+if os.path.exists(_hc):
+    HOOK_COMMITS = json.load(open(_hc))
+CLAIMED = {}
+NOT_APPLICABLE = {}
+_TODO = 'check not built yet (planned, see DESIGN.md §10); not claimed'
+for _i in range(1, 21):
+    NOT_APPLICABLE['C%02d' % _i] = _TODO
+for _f in sorted(glob.glob(os.path.join(os.path.dirname(os.path.abspath(__file__)), 'registry.d', 'C*.json'))):
+    _d = json.load(open(_f))
+    if _d.get('claimed'):
+        CLAIMED[_d['property']] = _d
+        NOT_APPLICABLE.pop(_d['property'], None)
+    else:
+        NOT_APPLICABLE[_d['property']] = _d['reason']
